@@ -15,7 +15,9 @@ Formats  == {"json", "yaml"}
 Modes    == {"minimal", "full", "expand"}
 \* multifile: the document refers to sibling files by relative $refs (definitions and a shared parameter);
 \* the embedded original is the main file as written, the embedded flattened document must be self-contained
-Docs     == {"rich", "nested", "multifile"}
+\* noids: operations without operationId, next to an operation whose explicit id is the name the generator
+\* derives for one of them (the embedded documents must keep the ids of the input - present, absent, as written)
+Docs     == {"rich", "nested", "multifile", "noids"}
 \* string content classes placed at the free-text positions of the document
 Contents == {"plain", "backtick", "dquote", "backslash", "newline", "control", "nonascii", "template", "html"}
 
